@@ -13,7 +13,7 @@ RULE = ('programs x placements of K<=2 (thorough: sampled K=3) requests from {pa
         'non-trivial when at least one request was applied and the process terminated')
 ASSUMPTIONS = ['lifecycle hooks do not raise (C03 owns that)', 'single-threaded deterministic event loop, no timers',
                'private attributes are read for coverage accounting only']
-REQUIRED = ['transitions', 'acts_after_terminal', 'samples', 'oneshot_callbacks_fired']
+REQUIRED = ['transitions', 'acts_after_terminal', 'samples', 'oneshot_callbacks_fired', 'recreated_with_broken_observers', 'failing_cleanup_runs']
 ALPHABET = [['pause', 'p'], ['play'], ['kill', 'k'], ['resume', ['v']], ['fail', 'f'], ['soon_ok', 'c'], ['soon_raise', 'c']]
 BOUNDS = {'quick': 'basic program family (14) K<=2 exhaustive over slots + 8 random programs (K=2 quarter-sampled)', 'thorough': 'K=3 exhaustive on 4 key programs, + 40 random programs, K=3 sampled'}
 
@@ -58,10 +58,19 @@ def gen_cases(tier, seed):
                        'probe': False, 'listener': True, 'oneshot': when}
 
 
+        # the process is one recreated from a checkpoint and / or its observers and cleanups are broken (all tolerated faults: the
+        # lifecycle is the same)
+        for i, plan in enumerate([[]] + list(plans.all_placements(n, ALPHABET, 1))):
+            for variant in ({'recreate': 'created', 'listener': 'raising'}, {'recreate': 'created', 'listener': 'raising-terminal'}, {'listener': 'raising-terminal'}, {'listener': 'raising', 'failing_cleanups': True},
+                            {'recreate': 'created', 'listener': True, 'failing_cleanups': True}):
+                yield dict({'name': name, 'program': prog, 'plan': plans.uniq(plan, 'r%d' % i), 'drain': True, 'barrage': True, 'probe': False}, **variant)
+
+
 def run_case(case):
     rec = lifecycle.run_case(case)
     viol = judges.judge_c01(rec)
-    obs = {'transitions': {}, 'samples': 0, 'acts_after_terminal': 0, 'acts': {}, 'oneshot_callbacks_fired': sum(1 for e in rec['events'] if e[0] == 'oneshot')}
+    obs = {'transitions': {}, 'samples': 0, 'acts_after_terminal': 0, 'acts': {}, 'oneshot_callbacks_fired': sum(1 for e in rec['events'] if e[0] == 'oneshot'),
+           'recreated_with_broken_observers': int(bool(case.get('recreate')) and str(case.get('listener')).startswith('raising')), 'failing_cleanup_runs': int(bool(case.get('failing_cleanups')))}
     for e in rec['events']:
         if e[0] == 'state':
             k = '%s->%s' % (e[1], e[2])
@@ -74,7 +83,7 @@ def run_case(case):
         k = '%s@%s' % (a['kind'], a['phase'])
         obs['acts'][k] = obs['acts'].get(k, 0) + 1
     res = {'viol': viol, 'obs': obs, 'inconclusive': rec['inconclusive'],
-           'key': [case['name'], case['plan'], case.get('oneshot')],
+           'key': [case['name'], case['plan'], case.get('oneshot'), case.get('recreate'), case.get('listener'), case.get('failing_cleanups')],
            'nontrivial': bool(case['plan']) and bool(rec['final'] and rec['final']['terminated'])}
     if not case['plan'] or viol:
         res['sample'] = {'program': case['name'], 'plan': case['plan'], 'final_state': rec['final']['state'] if rec['final'] else None,
